@@ -338,3 +338,23 @@ Definition c08_cmp_pred (args : list val) : bool :=
   | a :: rest => forallb (val_eqb a) rest
   | [] => false
   end.
+
+(** known finding F30: a user name that canonicalises to the empty string (it consisted only
+    of lone surrogates) is '' in the eagerly filled cache and absent (None) once the
+    authority is split again.  Accepts exactly the pairs of observations that differ only in
+    raw_user / user, '' against None. *)
+Definition kf_f30 (args : list val) : bool :=
+  match args with
+  | [WList o; WList o2] =>
+      match nth i_raw_user o WNone, nth i_raw_user o2 WNone with
+      | WStr [], WNone =>
+          (fix go (i : nat) (a b : list val) : bool :=
+             match a, b with
+             | [], [] => true
+             | x :: ra, y :: rb => (val_eqb x y || Nat.eqb i i_raw_user || Nat.eqb i i_user) && go (S i) ra rb
+             | _, _ => false
+             end) 0%nat o o2
+      | _, _ => false
+      end
+  | _ => false
+  end.
